@@ -49,7 +49,7 @@ Proof. intros [Hn Hi]. unfold tinv. rel_simp. split; assumption. Qed.
 
 Lemma tstep_inv which t c : tinv t -> tinv (fst (fst (tstep which t c))).
 Proof.
-  intros H. destruct c as [k h|k v h| |]; simpl.
+  intros H. destruct c as [k h|k v h| |cc]; simpl.
   - destruct (t_done t); simpl; [apply push_tinv; auto|].
     destruct (handler_aborts h); simpl; apply push_tinv; auto using release_tinv; rel_simp; reflexivity.
   - destruct (t_done t); simpl; [apply push_tinv; auto|].
@@ -57,7 +57,7 @@ Proof.
     destruct (handler_aborts h); simpl; apply push_tinv; auto using release_tinv; rel_simp; reflexivity.
   - apply release_tinv; exact H.
   - destruct which; simpl; [apply release_tinv; exact H|].
-    destruct (t_done t); simpl; [exact H|apply release_tinv; exact H].
+    destruct (t_done t || cc); simpl; [exact H|apply release_tinv; exact H].
 Qed.
 
 (* the number of Get/Set calls issued so far *)
@@ -67,23 +67,23 @@ Fixpoint count_ops (cs : list tcall) : nat :=
 Lemma tstep_next which t c :
   t_next (fst (fst (tstep which t c))) = t_next t + (if is_op c then 1 else 0).
 Proof.
-  destruct c as [k h|k v h| |]; simpl.
+  destruct c as [k h|k v h| |cc]; simpl.
   - destruct (t_done t); simpl; [lia|]. destruct (handler_aborts h); simpl; rel_simp; lia.
   - destruct (t_done t); simpl; [lia|]. destruct (handler_aborts h); simpl; rel_simp; lia.
   - rel_simp; lia.
   - destruct which; simpl; [rel_simp; lia|].
-    destruct (t_done t); simpl; [lia|]. rel_simp; lia.
+    destruct (t_done t || cc); simpl; [lia|]. rel_simp; lia.
 Qed.
 
 (* the ids the calls return are exactly the positions of their results *)
 Lemma tstep_id which t c : tinv t ->
   snd (tstep which t c) = if is_op c then Some (length (t_results t)) else None.
 Proof.
-  intros [Hn _]. destruct c as [k h|k v h| |]; simpl.
+  intros [Hn _]. destruct c as [k h|k v h| |cc]; simpl.
   - rewrite <- Hn. destruct (t_done t); reflexivity.
   - rewrite <- Hn. destruct (t_done t); reflexivity.
   - reflexivity.
-  - destruct which; [reflexivity|]. destruct (t_done t); reflexivity.
+  - destruct which; [reflexivity|]. destruct (t_done t || cc); reflexivity.
 Qed.
 
 Lemma trun_inv which t cs : tinv t -> tinv (fst (trun which t cs)).
@@ -96,16 +96,16 @@ Proof.
 Qed.
 
 (* Commit hands out the results accumulated so far (when it does not fail) *)
-Lemma commit_returns which t : forall l, snd (fst (tstep which t TCommit)) = CResults l -> l = t_results t.
+Lemma commit_returns which t cc : forall l, snd (fst (tstep which t (TCommit cc))) = CResults l -> l = t_results t.
 Proof.
   intros l. destruct which; simpl; [intros E; inversion E; auto|].
-  destruct (t_done t); simpl; intros E; inversion E; auto.
+  destruct (t_done t || cc); simpl; intros E; inversion E; auto.
 Qed.
 
 (* THEOREM (results_indexed): whenever Commit returns results, there is exactly one per Get/Set call
    issued before it, in call order, and the i-th carries operation id i. *)
-Theorem results_indexed which s0 cs l :
-  snd (fst (tstep which (fst (trun which (t_begin s0) cs)) TCommit)) = CResults l ->
+Theorem results_indexed which s0 cs cc l :
+  snd (fst (tstep which (fst (trun which (t_begin s0) cs)) (TCommit cc))) = CResults l ->
   length l = count_ops cs /\ forall i r, nth_error l i = Some r -> o_id r = i.
 Proof.
   intros E. apply commit_returns in E. subst l.
@@ -127,14 +127,14 @@ Qed.
 Theorem after_abort_no_effect which t c :
   t_done t = true -> t_store (fst (fst (tstep which t c))) = t_store t.
 Proof.
-  intros D. destruct c as [k h|k v h| |]; simpl; rewrite ?D; unfold push; simpl; auto.
+  intros D. destruct c as [k h|k v h| |cc]; simpl; rewrite ?D; unfold push; simpl; auto.
   - apply release_store.
   - destruct which; simpl; [apply release_store|rewrite ?D; reflexivity].
 Qed.
 
 Lemma done_sticky which t c : t_done t = true -> t_done (fst (fst (tstep which t c))) = true.
 Proof.
-  intros D. destruct c as [k h|k v h| |]; simpl; rewrite ?D; unfold push; simpl; auto.
+  intros D. destruct c as [k h|k v h| |cc]; simpl; rewrite ?D; unfold push; simpl; auto.
   - destruct which; unfold release; simpl; [destruct (t_released t)|]; auto.
   - destruct which; simpl; [unfold release; destruct (t_released t); auto|rewrite ?D; auto].
 Qed.
@@ -237,7 +237,7 @@ Proof. intros H; exact H. Qed.
 
 Lemma tstep_rinv t c : rinv t -> rinv (fst (fst (tstep MemTxn t c))).
 Proof.
-  intros H. destruct c as [k h|k v h| |]; cbn [tstep fst snd].
+  intros H. destruct c as [k h|k v h| |cc]; cbn [tstep fst snd].
   - destruct (t_done t); cbn [fst]; [apply push_rinv; exact H|].
     destruct (handler_aborts h); cbn [fst]; apply push_rinv; [apply release_rinv|]; exact H.
   - destruct (t_done t) eqn:D; cbn [fst]; [apply push_rinv; exact H|].
@@ -259,12 +259,12 @@ Proof.
 Qed.
 
 Definition ends (c : tcall) : bool :=
-  match c with TAbort | TCommit => true | TGet _ h | TSet _ _ h => handler_aborts h end.
+  match c with TAbort | TCommit _ => true | TGet _ h | TSet _ _ h => handler_aborts h end.
 
 Lemma released_sticky t c : rinv t -> t_released t = true -> t_released (fst (fst (tstep MemTxn t c))) = true.
 Proof.
   intros (C & L & R) E. destruct (R E) as [_ D].
-  destruct c as [k h|k v h| |]; unfold tstep, push, release; cbn [fst snd t_released];
+  destruct c as [k h|k v h| |cc]; unfold tstep, push, release; cbn [fst snd t_released];
     rewrite ?D, ?E; cbn [fst snd t_released]; rewrite ?E; auto.
 Qed.
 
@@ -273,7 +273,7 @@ Lemma ends_releases t c : rinv t -> t_done t = false \/ t_released t = true -> e
 Proof.
   intros H Hd He. destruct (t_released t) eqn:E; [apply released_sticky; auto|].
   destruct Hd as [D|D]; [|discriminate].
-  destruct c as [k h|k v h| |]; unfold tstep, push, release; cbn [fst snd t_released ends] in *;
+  destruct c as [k h|k v h| |cc]; unfold tstep, push, release; cbn [fst snd t_released ends] in *;
     rewrite ?D, ?He; cbn [fst snd t_released]; rewrite ?E; reflexivity.
 Qed.
 
@@ -282,7 +282,7 @@ Definition dinv (t : tstate) : Prop := t_done t = t_released t.
 
 Lemma tstep_dinv t c : dinv t -> dinv (fst (fst (tstep MemTxn t c))).
 Proof.
-  unfold dinv; intros H. destruct c as [k h|k v h| |]; unfold tstep, push, release;
+  unfold dinv; intros H. destruct c as [k h|k v h| |cc]; unfold tstep, push, release;
     cbn [fst snd t_done t_released];
     destruct (t_done t) eqn:D; destruct (t_released t) eqn:E; try discriminate;
     try destruct (handler_aborts h); cbn [fst snd t_done t_released]; rewrite ?E; cbn [t_done t_released]; congruence.
@@ -323,10 +323,10 @@ Proof.
     destruct (tstep SerialTxn t c) as [[t1 r] id] eqn:E.
     destruct (trun SerialTxn t1 cs) as [t2 out] eqn:E2. simpl.
     specialize (IH t1). rewrite E2 in IH. apply IH.
-    destruct c as [k h|k v h| |]; simpl in E.
+    destruct c as [k h|k v h| |cc]; simpl in E.
     - destruct (t_done t); [inversion E; subst; simpl; exact C|]. destruct (handler_aborts h); inversion E; subst; simpl; exact C.
     - destruct (t_done t); [inversion E; subst; simpl; exact C|]. destruct (handler_aborts h); inversion E; subst; simpl; exact C.
     - inversion E; subst; simpl; exact C.
-    - destruct (t_done t); inversion E; subst; simpl; exact C. }
+    - destruct (t_done t || cc); inversion E; subst; simpl; exact C. }
   unfold usable. rewrite G by reflexivity. reflexivity.
 Qed.
